@@ -183,3 +183,41 @@ func VerifH_C04_upgrade_then_close() {
 		verif.Assert(w.ps.Clients().Len() == 0 && w.ps.ClientsCount() == 0, "table and count drop back")
 	})
 }
+
+// VerifH_C04_shutdown_with_closing_session: server shutdown while one session is still
+// 'closing' (a graceful close whose transport has not finished, like a polling transport
+// waiting for the next poll): such a session is still live, so it stays registered and
+// counted until it really closes; afterwards table and count drop to exactly zero, and a
+// later handshake on the same server object is counted from there.
+func VerifH_C04_shutdown_with_closing_session() {
+	w := &regWorld{ps: newProtoServer(config.DefaultServerOptions())}
+	n := 1 + verif.Choose(2)
+	for i := 0; i < n; i++ {
+		w.handshake()
+	}
+	k := verif.Choose(n)
+	w.fts[k].holdClose = true
+	w.socks[k].Close(false) // the transport starts closing and does not finish by itself
+	verif.Assert(w.socks[k].ReadyState() == "closing", "graceful close in progress")
+	w.check("while one session is closing")
+	w.ps.Close()
+	for i := range w.live {
+		if i != k {
+			w.live[i] = false
+		}
+	}
+	if w.socks[k].ReadyState() == "closed" {
+		w.live[k] = false
+	}
+	w.check("after shutdown with a session still closing")
+	// the pending close completes (next poll / close timeout)
+	if fn := w.fts[k].pendingClose; fn != nil && w.live[k] {
+		w.fts[k].pendingClose = nil
+		fn()
+		w.fts[k].OnClose()
+	}
+	w.live[k] = false
+	w.check("after the closing session has closed")
+	w.handshake()
+	w.check("a later handshake on the same server")
+}
